@@ -834,6 +834,13 @@ def opaque(name: str, *args: Rat, array: Optional[bool] = None, extra=None) -> R
                 return args[0]
         except Exception:
             pass
+    if name == "slice" and len(args) == 3 and LENGTH_HOOK is not None and args[2].symbols() != {"None"} and args[2].is_const() is None:
+        # x[a:len(x)] is x[a:]
+        try:
+            if args[2].equals(LENGTH_HOOK(args[0])):
+                args = [args[0], args[1], sym("None")]
+        except Exception:
+            pass
     return _fn_atom(name, tuple(args), array, extra)
 
 
